@@ -89,7 +89,14 @@ T2 == [params |-> <<[name |-> "x", opt |-> FALSE], [name |-> "xs", opt |-> FALSE
                     \* three directives: the parser's slice has spare capacity, where an
                     \* append that does not copy first would write
                     els |-> Body(<<Pr("p6", Var("x"), <<"escapeHtml", "id", "noAutoescape">>)>>)],
+                   \* second link of a data="all" chain: a.t1 -(all + param z)-> a.t2 -(all)-> a.t0;
+                   \* the params of the first call must stay in their own frame
+                   Call("a.t0", "all", <<>>),
                    Tx("]") >>]
+
+\* only called, never an entry point of a history
+T0 == [params |-> <<[name |-> "z", opt |-> TRUE]>>, nsa |-> "", ta |-> "",
+       body |-> << Tx("<"), Pr("p16", Bin("elvis", Var("z"), ES(".")), <<>>), Tx(">") >>]
 
 \* The two calls take their data from an EXPRESSION that evaluates to one of
 \* the caller's own maps (ternary / elvis over references) and add explicit
@@ -109,12 +116,12 @@ T3 == [params |-> <<[name |-> "x", opt |-> FALSE], [name |-> "n", opt |-> FALSE]
                    [k |-> "letc", name |-> "w", body |-> <<Tx("w"), Pr("p9", Var("n"), <<>>)>>],
                    Pr("p10", Var("w"), <<>>) >>]
 
-TheBundle == ("a.t1" :> T1) @@ ("a.t2" :> T2) @@ ("b.t3" :> T3)
+TheBundle == ("a.t0" :> T0) @@ ("a.t1" :> T1) @@ ("a.t2" :> T2) @@ ("b.t3" :> T3)
 Templates == <<"a.t1", "a.t2", "b.t3">>
 
 \* the source files and the print nodes each contains, in source order
 Files == <<"a.soy", "b.soy">>
-FileIds == ("a.soy" :> <<"p1", "p2", "p11", "p12", "p13", "p14", "p3", "p4", "p5", "p6">>)
+FileIds == ("a.soy" :> <<"p1", "p2", "p11", "p12", "p13", "p14", "p3", "p4", "p5", "p6", "p16">>)
            @@ ("b.soy" :> <<"p7", "p8", "p15", "p9", "p10">>)
 
 TheExpr == Bin("add", Fn("round", <<[k |-> "float", num |-> 7, sh |-> 1]>>),
